@@ -281,6 +281,74 @@ class X86Model(object):
                     raise AnalysisError('init_pre_modrm no longer builds self.%s' % need)
         return self._modrm
 
+    # -- MMX/SSE operand modes chosen inside x86_mn._dis, derived from its source
+    def _dis_mmx_nodes(self):
+        if getattr(self, '_mmxnodes', None) is None:
+            from .srcmodel import walk_no_nested
+            dis = self.arch.method('x86_mn', '_dis')
+            chain = digit_chain = memsize = None
+            for n in walk_no_nested(dis):
+                if isinstance(n, ast.If) and u(n.test) == 'm.modifs[mmx]':
+                    if any(isinstance(x, ast.Assign) and u(x.targets[0]) == 'reg_cat' for st in n.body for x in ast.walk(st)):
+                        chain = n
+                    elif all(isinstance(x, ast.If) for x in n.body) and 'self.admode' in u(n) and 'reg_cat' not in u(n) and 'modr[' not in u(n) \
+                            and 'mafs[' not in u(n) and digit_chain is None:
+                        digit_chain = n
+                if isinstance(n, ast.If) and u(n.test) == 'modr[x86_afs.ad]' and "m.name == 'mov#d#'" in u(n):
+                    memsize = n
+            if chain is None or digit_chain is None or memsize is None:
+                raise AnalysisError('_dis: the MMX/SSE register-file selection / memory-size table was not found')
+            self._mmxnodes = (chain, digit_chain, memsize)
+        return self._mmxnodes
+
+    def _mmx_scope(self, name, prefix):
+        from .consteval import Native
+        afs = self.afs
+        me = Obj('self')
+        # mode at the entry of the selection: the 0x66 prefix has already toggled the operand size
+        me.opmode, me.admode = (afs.u16 if 0x66 in prefix else afs.u32), afs.u32
+        m_ = Obj('m')
+        m_.name = name
+        m_.modifs = {self.env['mmx']: True}
+        lg = Obj('log')
+        lg.debug = Native(lambda *a: None)
+        return me, {'self': me, 'm': m_, 'read_prefix': list(prefix), 'mm': afs.mm, 'xmm': afs.xmm, 'u32': afs.u32, 'u16': afs.u16, 'x86_afs': afs, 'log': lg, 'reg_cat': 0}
+
+    def dis_mmx_modes(self, name, prefix, swap, digit=False):
+        """(opmode, admode, swap_args) that _dis selects for an MMX/SSE row, 'rejected' when it returns None,
+        'never' when it reaches a NEVER/raise site."""
+        from .consteval import _Return
+        chain, digit_chain, _ = self._dis_mmx_nodes()
+        me, scope = self._mmx_scope(name, prefix)
+        scope['swap_args'] = swap
+        ev = Evaluator({})
+        ev.env = scope
+        try:
+            ev.exec_stmts((digit_chain if digit else chain).body, scope)
+        except _Return:
+            return 'rejected'
+        except NotConst as e:
+            if 'NEVER' in str(e) or 'statement Raise' in str(e):
+                return 'never'
+            raise AnalysisError('_dis MMX/SSE mode selection for %s is outside the evaluable subset: %s' % (name, e))
+        return me.opmode, me.admode, scope['swap_args']
+
+    def dis_mmx_memsize(self, name, prefix, size):
+        """size of a memory r/m operand after the per-mnemonic adjustment table of _dis ('never' at a NEVER site)"""
+        _, _, memsize = self._dis_mmx_nodes()
+        me, scope = self._mmx_scope(name, prefix)
+        modr = {self.afs.ad: True, self.afs.size: size}
+        scope['modr'] = modr
+        ev = Evaluator({})
+        ev.env = scope
+        try:
+            ev.exec_stmts(memsize.body, scope)
+        except NotConst as e:
+            if 'NEVER' in str(e):
+                return 'never'
+            raise AnalysisError('_dis MMX/SSE memory-size table for %s is outside the evaluable subset: %s' % (name, e))
+        return modr[self.afs.size]
+
     # -- vocabulary
     def decoder_names(self):
         """Mnemonic names the decoder can put in an instruction (cells + special_opcodes renames)."""
